@@ -4,6 +4,7 @@ package main
 
 import (
 	"bufio"
+	"crypto/sha1"
 	"encoding/hex"
 	"encoding/json"
 	"fmt"
@@ -12,11 +13,13 @@ import (
 	"os/exec"
 	"sort"
 	"strings"
+	"sync"
 )
 
 // Failure is a concrete input on which the implementation breaks the property itself,
 // judged by an oracle that does not involve the Coq model.
 type Failure struct {
+	Seq   int         `json:"seq"`
 	Class string      `json:"class"` // stable identifier of the failing call site / input class
 	Desc  string      `json:"desc"`
 	Input interface{} `json:"input"`
@@ -26,6 +29,7 @@ type Failure struct {
 
 // Mismatch is an input on which model and implementation disagree.
 type Mismatch struct {
+	Seq    int         `json:"seq"`
 	Stream string      `json:"stream"`
 	Input  interface{} `json:"input"`
 	Impl   string      `json:"impl"`
@@ -49,6 +53,7 @@ type Result struct {
 	GenFiles           []string       `json:"gen_files"`
 
 	distinct map[string]bool
+	mu       sync.Mutex
 }
 
 func newResult(prop, tier string, seed int64) *Result {
@@ -60,6 +65,12 @@ func newResult(prop, tier string, seed int64) *Result {
 // count registers one evaluated case; key identifies it for distinctness; nontrivial says
 // whether it counts towards distinct_nontrivial under the property's stated rule.
 func (r *Result) count(kind, key string, nontrivial bool) {
+	r.mu.Lock()
+	defer r.mu.Unlock()
+	if len(key) > 64 {
+		h := sha1.Sum([]byte(key))
+		key = string(h[:])
+	}
 	r.Evaluations++
 	r.Hist[kind]++
 	if nontrivial && !r.distinct[key] {
@@ -69,25 +80,60 @@ func (r *Result) count(kind, key string, nontrivial bool) {
 }
 
 func (r *Result) sample(s interface{}) {
+	r.mu.Lock()
+	defer r.mu.Unlock()
 	if len(r.Samples) < 6 {
 		r.Samples = append(r.Samples, s)
 	}
 }
 
 func (r *Result) fail(f Failure) {
-	if len(r.OracleFailures) < 200 {
+	r.mu.Lock()
+	defer r.mu.Unlock()
+	if len(r.OracleFailures) < 400 {
 		r.OracleFailures = append(r.OracleFailures, f)
 	}
 }
 
+func (r *Result) hist(k string) {
+	r.mu.Lock()
+	r.Hist[k]++
+	r.mu.Unlock()
+}
+
+func (r *Result) note(s string) {
+	r.mu.Lock()
+	if len(r.Notes) < 50 {
+		r.Notes = append(r.Notes, s)
+	}
+	r.mu.Unlock()
+}
+
+func (r *Result) modelCase(stream string) {
+	r.mu.Lock()
+	r.ModelCases++
+	r.Streams[stream]++
+	r.mu.Unlock()
+}
+
 func (r *Result) mismatch(m Mismatch) {
-	if len(r.Mismatches) < 200 {
+	r.mu.Lock()
+	defer r.mu.Unlock()
+	if len(r.Mismatches) < 400 {
 		r.Mismatches = append(r.Mismatches, m)
 	}
 }
 
 func (r *Result) write(outdir string) {
 	r.distinct = nil
+	sort.SliceStable(r.OracleFailures, func(i, j int) bool { return r.OracleFailures[i].Seq < r.OracleFailures[j].Seq })
+	sort.SliceStable(r.Mismatches, func(i, j int) bool { return r.Mismatches[i].Seq < r.Mismatches[j].Seq })
+	if len(r.OracleFailures) > 200 {
+		r.OracleFailures = r.OracleFailures[:200]
+	}
+	if len(r.Mismatches) > 200 {
+		r.Mismatches = r.Mismatches[:200]
+	}
 	b, _ := json.MarshalIndent(r, "", " ")
 	if err := os.WriteFile(outdir+"/result.json", b, 0o644); err != nil {
 		panic(err)
